@@ -64,7 +64,15 @@ def st_case(draw, tier):
     variant = draw(st.sampled_from(["mp", "mp", "re"]))
     singles = draw(st.booleans())
     kind = draw(st.sampled_from(["energy", "amplitude", "amplitude",
-                                 "expectation"]))
+                                 "expectation", "norm_recipe"]))
+    if kind == "norm_recipe":
+        # the Taylor recipe of the norm factor (1 + sum_n S^(n))^-1 is cheap
+        # at any order: checked far beyond the derivable orders
+        return {"variant": variant, "singles": singles, "kind": kind,
+                "order": draw(st.integers(0, 10)),
+                "min_order": draw(st.sampled_from([1, 2, 2, 2, 3])),
+                "size": [2, 2], "canonical": True,
+                "mseed": draw(st.integers(0, 2**31))}
     max_o = 3 if tier == "quick" else 4
     case = {"variant": variant, "singles": singles, "kind": kind,
             "size": draw(st.sampled_from([[2, 2], [3, 2], [2, 3], [3, 3]])),
@@ -108,6 +116,18 @@ def run_case(case):
     r = R()
     variant, singles, kind = case["variant"], case["singles"], case["kind"]
     gs = gs_obj(variant, singles)
+    if kind == "norm_recipe":
+        n, mo = case["order"], case["min_order"]
+        r.sample = f"GroundState({variant}).expand_norm_factor({n}, {mo})"
+        ok, rec = lib_call(r, "expand_norm_factor", gs.expand_norm_factor, n,
+                           mo)
+        if ok:
+            msg = common.check_taylor_recipe(rec, n, mo, -2, case["mseed"])
+            if msg:
+                r.fail("norm_factor_recipe", f"{r.sample}: {msg}")
+        r.nontrivial = n >= 2 * mo
+        r.cls("norm_recipe", f"order={n}")
+        return r
     order = case["order"]
     for attempt in range(4):
         try:
